@@ -405,7 +405,7 @@ def sensitive_edits(c):
                 c.differ('dtype-same-bytes', with_variable(ds, n, values=numpy.zeros((), dtype=numpy.float32)), variable=n)
 
     # 3. shape with identical bytes: 2-D CF grids, nj != ni (all geometry variables reshaped together, grid data dropped)
-    if conv in ('cf2d', 'shoc_simple'):
+    if conv in ('cf2d', 'shoc_simple') and not model.encoding.get('transpose_lon'):
         nj, ni = model.kinds['face'].shape
         ydim, xdim = model.kinds['face'].dims
         if nj != ni:
